@@ -116,6 +116,8 @@ X("x_blend_public_api", "Frame::image on two-layer sprites == Aseprite reference
 X("x_determinism", "same bytes -> same observations; repeated / reordered / 16-thread concurrent calls agree", ["file::*"], mod="x_misc", bound="40 / 400 seeded models + 10 / all small corpus files")
 X("x_utils", "extrude_border clamps; PaletteMapper.lookup / to_indexed_image as documented", ["util::extrude_border", "util::PaletteMapper::new", "util::PaletteMapper::lookup", "util::to_indexed_image"], mod="x_misc",
   bound="all sizes 1..8^2 + 30 / 300 seeded up to 64x64; 200 / 2000 seeded palettes")
+X("x_cel_table_memory", "loading n <= 800 frames that each hold one cel chunk naming layer 65535 returns a sprite or an error value under the child's 4 GiB address-space limit (the dense cel table must not turn a declared layer index into gigabytes)",
+  ["cel::CelsData::add_cel", "parse::ParseInfo::add_cel"], mod="x_total", bound="n in {50, 200, 800} frames (2 / 8 / 32 KiB files), RLIMIT_AS 4 GiB")
 X("x_cels_table", "CelsData: add_cel Ok iff frame exists and slot free; cel() returns what was stored; frame_cels(f) yields the stored cels of the frame in increasing layer index, each with its layer id (the executed check behind the trusted Verus shim of frame_cels)",
   ["cel::CelsData::new", "cel::CelsData::add_cel", "cel::CelsData::cel", "cel::CelsData::frame_cels"], mod="x_misc", bound="784 cases: two insertions, frame ids in {0,1,2,3,255,256,65535}, layer indices 0..=3")
 X("x_decoder_contracts", "every chunk decoder satisfies its contract (Ok iff layout/enums/UTF-8 valid; every stored attribute == layout read, file order) on generated payloads",
@@ -372,7 +374,7 @@ prop("C02", "proof", ["v_frame_image", "v_write_cel", "x_cels_table", "x_forest_
      "The raw-cel rasteriser is proved FUNCTIONALLY correct by Verus for unbounded sizes (placement, clipping, row-major index, opacity product, blend call). mul_un8 == round8 and the cel table's storage-order independence are Kani contracts. frame_image / write_cel / is_visible glue and the dispatch table (Kani ICE, no dyn in Verus) are bounded stand-ins.")
 prop("C03", "proof", BLEND_LEAVES + BLEND_WRAPPERS + ["k_parse_blend_mode", "x_mode_table", "x_soft_light", "x_hsl_kernels", "x_blend_public_api"],
      "14 integer modes: leaves == Aseprite macros over their full domains, normal/merge == reference over all 2^72 inputs, every mode function == RGBA_BLENDER_N structure modulo callees (uninterpreted-function abstraction). soft light and the four HSL modes: integer skeleton proved, f64 kernels bounded-exec (soft light exhaustive over 65536 pairs).")
-prop("C04", "proof", VDEC_IDS + ["v_chunk_read", "v_chunk_read_all", "v_parse_chunk_type", "v_celsdata_new", "v_parseinfo_new", "v_parseinfo_validate", "v_celsdata_validate", "v_rawcel_validate", "v_layersdata_validate", "v_tilesets_validate", "v_compute_parents", "v_from_vec", "k_check_chunk_bytes", "k_scale_6bit", "k_parse_chunk_type", "k_parse_pixel_format"] + LAYER_DEC + TAGS_DEC + SLICE_DEC + PAL_DEC + EXT_DEC
+prop("C04", "proof", ["x_cel_table_memory"] + VDEC_IDS + ["v_chunk_read", "v_chunk_read_all", "v_parse_chunk_type", "v_celsdata_new", "v_parseinfo_new", "v_parseinfo_validate", "v_celsdata_validate", "v_rawcel_validate", "v_layersdata_validate", "v_tilesets_validate", "v_compute_parents", "v_from_vec", "k_check_chunk_bytes", "k_scale_6bit", "k_parse_chunk_type", "k_parse_pixel_format"] + LAYER_DEC + TAGS_DEC + SLICE_DEC + PAL_DEC + EXT_DEC
      + TS_DEC + CEL_DEC + UD_DEC + CP_DEC + READER + ["k_tilemap_bits", "k_tile_parse", "k_cels_table", "v_read_aseprite", "v_parse_frame", "v_ud_set_tag_user_data", "v_ud_add_user_data", "v_ud_add_cel", "v_cel_mut", "x_decoder_contracts", "x_total_load"],
      "Totality contracts: every Kani decoder harness also discharges the automatic no-panic / no-overflow / in-bounds checks for all contents of its payload size; Verus proves compute_parents and that from_vec establishes its precondition. Whole-load totality (glue, zlib, stack depth, allocation) is fault enumeration in an isolated child process.", level_note_extra="fault enumeration for the composition")
 prop("C05", "proof", ["v_file_tilemap", "v_from_vec", "v_parseinfo_validate", "v_celsdata_new", "v_parseinfo_new", "v_tilesets_validate", "v_celsdata_validate", "v_rawcel_validate", "v_imagecontent_validate", "v_layersdata_validate", "v_write_cel", "v_frame_image", "v_layer_image", "v_validate_indexed", "v_rawpixels_validate", "v_indexed_as_rgba", "v_dec_tilemap", "v_dec_tileset", "v_write_raw_cel", "v_write_tilemap_cel", "v_tile_slice", "v_tilemap_tile", "v_tilemap_lookup", "v_tile_offsets", "v_is_visible", "v_pixels_per_tile", "k_validate_indexed", "k_indexed_as_rgba", "k_tileset_head_34", "k_tileset_head_44", "x_usable_after_load"],
